@@ -268,6 +268,7 @@ class AsyncProxy(BaseProxy):
         try:
             if name == "set_event":
                 ctx.in_set_event = arg  # (a warning logged while this call is processed belongs to it, whatever its wording)
+            ctx.in_async_call = self.sid
             try:
                 if name == "get_progress":
                     r = await self.remote.get_progress()
@@ -277,6 +278,7 @@ class AsyncProxy(BaseProxy):
                     r = await getattr(self.remote, name)(arg)
             finally:
                 ctx.in_set_event = None
+                ctx.in_async_call = None
             if name == "get_data":
                 ev["val"] = _enc_cb("get_data_result", r)
             elif name == "get_progress":
@@ -289,6 +291,11 @@ class AsyncProxy(BaseProxy):
             ev["res"] = "SimulationError"
         except BaseException as e:  # noqa: BLE001
             ev["res"] = type(e).__name__
+            if (getattr(ctx.behaviour, "plan", None) or {}).get("forwarded"):
+                # the request failed because the simulator it was passed on to failed (C14 cases): this simulator does not handle that,
+                # the exception leaves its step like any other
+                ctx.record(ev)
+                raise
         if name == "get_progress" and ev["res"] != "ok":
             ev["arg"] = -2
         if name == "get_related_entities" and ev["res"] != "ok":
